@@ -194,6 +194,12 @@ def special_domains(tier, rng):
         for e in gen.all_single_edits(s, alpha):
             neigh.add(e)
         neigh.update([s + b"s", b"x" + s, s + b"a", s[:-1], s[1:], s + b".co", s + b".x"])
+        for ext in (b"a", b"ab", b"abc", b"abcd", b"land", b"-x", b"1", b"12345", b"s.com", b"x-y-z"):
+            neigh.update([s + ext, ext + s, ext + b"-" + s])
+        if b"." in s:
+            a, b = s.split(b".")
+            for ext in (b"a", b"ab", b"s", b"abc"):
+                neigh.update([a + ext + b"." + b, a + b"." + b + ext, ext + a + b"." + b, a + b"." + ext + b])
     neigh.update([b"example.co", b"example.comm", b"example.co.m", b"exampl.ecom", b"examplecom", b"example.edu", b"tests",
                   b"foo.tests", b"exampleA", b"xexample.com", b"example.example", b"test.example.com", b"example.com.test",
                   b"com.example", b"example.test", b"example.invalid", b"example.onion", b"example.localhost",
@@ -332,6 +338,27 @@ def idn_domains(tier, rng, mdl):
             U = ".".join(labs).encode("utf-8")
             A = b".".join(to_alabel(l) for l in labs)
         out.append((U, A))
+    # long domains: many bytes in UTF-8, but an A-label form within the DNS limits (computed here, anchored on libidn2 later)
+    for i in range(60 if tier == "quick" else 1500):
+        script = scripts[i % len(scripts)]
+        labs = []
+        target = rng.choice([200, 250, 254, 255, 256, 300, 400, 500])
+        while True:
+            ch = rng.choice(SCRIPT_POOLS[script])
+            n = rng.randrange(8, 40)
+            lab = "".join(rng.choice([ch, ch, rng.choice(SCRIPT_POOLS[script])]) for _ in range(n))
+            a = to_alabel(lab)
+            if len(a) > 63:
+                continue
+            cand = labs + [lab]
+            A = b".".join(to_alabel(l) for l in cand) + b".com"
+            if len(A) > 253:
+                break
+            labs = cand
+            if len(".".join(labs).encode("utf-8")) >= target:
+                break
+        if labs:
+            out.append((".".join(labs).encode("utf-8") + b".com", b".".join(to_alabel(l) for l in labs) + b".com"))
     return out
 
 
